@@ -26,7 +26,15 @@
    C04_quoted_scanner_partial is the scanner lemma that C04_attr_value_literal builds on (kept).
    C04_text_with_attributes / C04_expand_text_element: text on an element that also carries `#id`, `.class`,
    `[...]` (`a.c[b=1]{t}`), front end and whole pipeline.
-   Not covered by a theorem: `$` numbering / fields inside text and attribute values, text written
+   Text WITH numbering (end of file, proofs/TextNested.v): C04_text_nested -- `name{P}` for every payload P in
+   which literal runs alternate with `$` counters, `$#` and `${n}` / `${n:placeholder}` fields at ANY depth of
+   inner braces (the fact behind repair 86fc68a, `p{{$}}`), with C04_tokenize_nested, C04_nested_closing_brace,
+   C04_parse_nested, C04_nested_value_text, C04_nested_value_flat, C04_nested_scanner, C04_nested_repeated (copy i
+   of `name{P}*N`); C04_nested_extends_text_literal shows C04_text_literal is its one-run case; C04_attr_expr_nested /
+   C04_tokenize_attr_nested / C04_attr_expr_nested_repeated: the same payloads as an `{expression}` attribute value
+   `name[n={P}]`, alone and `*N` (proofs/AttrNested.v); C04_expand_nested: `name{P}` through markup.parse and the HTML
+   formatter (proofs/ExpandNested.v).
+   Not covered by a theorem: `$` numbering / fields inside quoted / unquoted attribute values, text written
    between the attribute parts (`a{t}.c`), text under the haml / pug / slim formatters -- these are
    covered by the model/implementation correspondence and the oracle. *)
 From Coq Require Import String.
@@ -381,3 +389,231 @@ Example C04_plain_nonvacuous :
                 match parse false toks with POk r => Ok r | PErr _ => Internal 0%N end) = Ok root
                /\ quiet_all root.
 Proof. eexists. split; [vm_compute; reflexivity|]. cbn. repeat split; repeat constructor; try discriminate. Qed.
+
+(* ================================================================ text WITH numbering inside nested braces
+   (repair 86fc68a: `p{{$}}`, `p{a{$}b}`, `p{{$#}}`, `p{{${1}}}` used to be "Unexpected character").
+
+   Vocabulary (proofs/TextNested.v).  A [payload] is a literal run followed by (item, literal run) any number
+   of times, runs may be empty; an [item] is a counter [INum n at_sign reverse digits] written `$`*n, `$`*n@,
+   `$`*n@M, `$`*n@-, `$`*n@-M, the placeholder [IPh] `$#`, or a field [IField index ph] `${index}` /
+   `${index:ph}`.  [payload_text P] is the payload as written.  [payload_ok P]: read from the opening brace of the
+   text, every run keeps the brace depth >= 0 ([walk]: no unescaped `$`, no dangling backslash; a run need NOT be
+   balanced by itself), the depth is back to 0 at the end (the written text is balanced modulo escapes), every item
+   is written in a documented form, and the character after it cannot be read as its continuation ([item_ok]: no
+   `$`/`@` after a bare `$` run, no digit after `@3`, no `{`/`#` after a single `$`, ...; a field placeholder
+   balances its braces as the tokenizer counts them, [rawbal]).  Items may stand at ANY brace depth.
+   [payload_tokens pos P]: the value tokens in order -- per run its leading white space and ONE literal holding the
+   rest unescaped (inner braces kept), per item ONE token over its whole form with the fields the tokenizer gives it
+   ([item_kind]: RepeaterNumber size reverse base, RepeaterPlaceholder, Field name index).
+   [nested_value reps P]: the node value -- runs unescaped, counters replaced by the counter in force under the
+   repeater stack [reps] zero-padded (C02_numbering_value), `$#` by nothing (no wrap text), neighbouring strings
+   glued into one string, fields kept as fields. *)
+From Emmet Require Import proofs.NumberingProofs proofs.ConvertProofs proofs.TextNested proofs.AttrNested proofs.ExpandNested.
+
+(* text_nested.  For EVERY such payload and every element name, the front end (tokenize, parse, convert) turns
+   `name{P}` into the single node `name` whose value is the payload: literal runs verbatim with escapes resolved
+   and inner braces kept, every counter replaced by its value (1 outside repeaters), fields as fields. *)
+Theorem C04_text_nested :
+  forall (jsx : bool) (env : cenv) (max_repeat : option N) (name : str) (P : payload),
+    name_ok name -> payload_ok P = true -> ce_text env = WNone ->
+    parse_abbr jsx env max_repeat (name ++ c_lbrace :: payload_text P ++ [c_rbrace]) =
+      Ok [ANode (Some name) (nested_value [] P) None None [] false].
+Proof. exact text_nested. Qed.
+Print Assumptions C04_text_nested.
+
+(* its stages.  (1) the tokens: name, `{`, the payload's tokens, `}` ... *)
+Theorem C04_tokenize_nested :
+  forall (name : str) (P : payload), name_ok name -> payload_ok P = true ->
+    tokenize (name ++ c_lbrace :: payload_text P ++ [c_rbrace]) = TOk (nested_abbr_tokens name P).
+Proof. exact tokenize_nested. Qed.
+Print Assumptions C04_tokenize_nested.
+
+(* ... so the text bracket opened after the name is closed by exactly the LAST `}`: the closing Bracket token is
+   the last token, it spans the last character, and no token between the two is a brace token *)
+Theorem C04_nested_closing_brace :
+  forall (name : str) (P : payload), name_ok name -> payload_ok P = true ->
+    let s := name ++ c_lbrace :: payload_text P ++ [c_rbrace] in
+    exists inner,
+      tokenize s = TOk (mkTok (TLiteral name) 0 (length name)
+                        :: mkTok (TBracket true BExpr) (length name) (length name + 1)
+                        :: inner ++ [mkTok (TBracket false BExpr) (length s - 1) (length s)]) /\
+      Forall not_expr_bracket inner.
+Proof. exact nested_closing_brace. Qed.
+Print Assumptions C04_nested_closing_brace.
+
+(* (2) the parser: ONE element whose value is the list of the payload's tokens, in order *)
+Theorem C04_parse_nested :
+  forall (jsx : bool) (name : str) (P : payload), name_ok name -> payload_ok P = true ->
+    exists toks, tokenize (name ++ c_lbrace :: payload_text P ++ [c_rbrace]) = TOk toks /\
+      parse jsx toks =
+        POk [TElem (Some [mkTok (TLiteral name) 0 (length name)]) None
+                   (Some (payload_tokens (length name + 1) P)) None false []].
+Proof. exact parse_nested. Qed.
+Print Assumptions C04_parse_nested.
+
+(* the literal scanner resumed [d] braces deep inside a text that began at depth [es]: it reads the whole run --
+   inner `}` included -- up to the next `$` or, at depth 0, the brace that closes the text *)
+Theorem C04_nested_scanner :
+  forall (T : str) (d d' : nat) (es : Z) (prev : option char) (attr : Z) (rest : str),
+    (0 < es)%Z -> walk d T = Some d' -> stops d' rest ->
+    lit None attr es (es + Z.of_nat d) prev false (T ++ rest) = (unescape T, length T, (es + Z.of_nat d')%Z).
+Proof. exact lit_run. Qed.
+Print Assumptions C04_nested_scanner.
+
+(* (3) the value, read as text: the payload with escapes resolved and every counter replaced by its value
+   ([payload_out]; a field prints its placeholder) ... *)
+Theorem C04_nested_value_text :
+  forall (reps : list rep) (P : payload), value_text (nested_value reps P) = payload_out reps P.
+Proof. exact nested_value_text. Qed.
+Print Assumptions C04_nested_value_text.
+
+(* ... and without `${n}` fields the value IS that one string *)
+Theorem C04_nested_value_flat :
+  forall (reps : list rep) (P : payload),
+    forallb (fun kt => negb (is_field (fst kt))) (snd P) = true -> payload_text P <> [] ->
+    nested_value reps P = Some [VStr (payload_out reps P)].
+Proof. exact nested_value_flat. Qed.
+Print Assumptions C04_nested_value_flat.
+
+(* C04_text_literal is the case of a payload that is one run *)
+Theorem C04_nested_extends_text_literal :
+  forall (T : str) (reps : list rep),
+    payload_ok (T, []) = bal 0 T /\ payload_text (T, []) = T /\ nested_value reps (T, []) = text_value T.
+Proof. exact nested_extends_text_literal. Qed.
+Print Assumptions C04_nested_extends_text_literal.
+
+(* nested_repeated.  `name{P}*N`, N written as the digit string [ds] ([count_of ds] = int(ds), `*0` counting as 1)
+   and a maxRepeat limit that does not cut it short: exactly N nodes, copy i (0-based) carrying the payload under the
+   repeater stack [(N, i)]; by C04_nested_value_text its text is the literal runs, unescaped, with every counter --
+   at whatever brace depth -- replaced by the value of copy i+1 (C02_counter_in_nested_text in props/C02.v).
+   Every payload of the domain, `$#` included (it stands for nothing: no wrap text).  Stated for the element alone
+   (attributes / children / siblings beside it: C01 spine + C02_limit_full on the token tree of C04_parse_nested). *)
+Theorem C04_nested_repeated :
+  forall (jsx : bool) (env : cenv) (max_repeat : option N) (name : str) (P : payload) (ds : str),
+    name_ok name -> payload_ok P = true -> all_digits ds -> ds <> [] -> ce_text env = WNone ->
+    let n := count_of ds in
+    (Z.of_N n <= budget_of max_repeat)%Z ->
+    parse_abbr jsx env max_repeat (name ++ c_lbrace :: payload_text P ++ c_rbrace :: c_star :: ds) =
+      Ok (map (fun i => ANode (Some name) (nested_value [mkRep n i false] P) (Some (mkRep n i false)) None [] false)
+              (nseq (N.to_nat n) 0%N)).
+Proof. exact text_nested_repeated_full. Qed.
+Print Assumptions C04_nested_repeated.
+
+(* attr_expr_nested.  The same payloads as an `{expression}` ATTRIBUTE value, end to end (tokenize, parse, convert) on
+   `name[n={P}]`: ONE node with the one attribute n whose value is the payload -- runs with escapes resolved and inner
+   braces kept, counters replaced, fields kept as fields ([attr_nested_value reps P] = the strings and fields of
+   [nested_value], an empty payload giving the empty value list) -- of type expression.  Extends the `n={e}` row of
+   C04_attr_value_literal from payloads without `$` to payloads with numbering at any brace depth.
+   (One attribute, written name; other value forms / several attributes with such values: correspondence + oracle.) *)
+Theorem C04_attr_expr_nested :
+  forall (jsx : bool) (env : cenv) (max_repeat : option N) (name n : str) (P : payload),
+    word_ok name -> plain_attr_name n -> payload_ok P = true -> ce_text env = WNone ->
+    parse_abbr jsx env max_repeat (name ++ c_lbrack :: n ++ c_eq :: c_lbrace :: payload_text P ++ [c_rbrace; c_rbrack]) =
+      Ok [ANode (Some name) None None
+                (Some [mkAAttr (Some n) (Some (attr_nested_value [] P)) VExpr false false false]) [] false].
+Proof. exact attr_expr_nested. Qed.
+Print Assumptions C04_attr_expr_nested.
+
+(* its tokens: name, `[`, n, `=`, `{`, the payload's tokens, `}`, `]` *)
+Theorem C04_tokenize_attr_nested :
+  forall (name n : str) (P : payload),
+    word_ok name -> n <> [] -> forallb asafe n = true -> payload_ok P = true ->
+    tokenize (name ++ c_lbrack :: n ++ c_eq :: c_lbrace :: payload_text P ++ [c_rbrace; c_rbrack]) =
+      TOk (attr_nested_tokens name n P).
+Proof. exact tokenize_attr_nested. Qed.
+Print Assumptions C04_tokenize_attr_nested.
+
+(* ... and repeated: `name[n={P}]*N` gives N nodes, copy i (0-based) with the attribute value under the stack [(N, i)]
+   -- every counter inside the expression, at whatever brace depth, prints the value of copy i+1 *)
+Theorem C04_attr_expr_nested_repeated :
+  forall (jsx : bool) (env : cenv) (max_repeat : option N) (name n : str) (P : payload) (ds : str),
+    word_ok name -> plain_attr_name n -> payload_ok P = true -> all_digits ds -> ds <> [] -> ce_text env = WNone ->
+    let N0 := count_of ds in
+    (Z.of_N N0 <= budget_of max_repeat)%Z ->
+    (* attr_nested_text name n P = name ++ "[" ++ n ++ "={" ++ payload_text P ++ "}]" *)
+    parse_abbr jsx env max_repeat (attr_nested_text name n P ++ c_star :: ds) =
+      Ok (map (fun i => ANode (Some name) None (Some (mkRep N0 i false))
+                              (Some [mkAAttr (Some n) (Some (attr_nested_value [mkRep N0 i false] P)) VExpr false false false])
+                              [] false)
+              (nseq (N.to_nat N0) 0%N)).
+Proof. exact attr_expr_nested_repeated. Qed.
+Print Assumptions C04_attr_expr_nested_repeated.
+
+(* expand_nested.  `name{P}` through the WHOLE pipeline (markup.parse: snippets, transform; HTML formatter): expand writes
+   <name>TEXT</name>  with TEXT = [payload_out [] P] -- the payload with escapes resolved, inner braces kept, every counter
+   replaced by its value (1: no repeater), a field by its placeholder -- and nothing else between the tags.
+   Hypotheses as in C04_expand_text_element ([value_inline]: the text has no line break and does not start with a
+   block-level tag). *)
+Theorem C04_expand_nested :
+  forall (x : xconfig) (name : str) (P : payload),
+    let m := xc_m x in
+    let c := xc_o x in
+    name_ok name -> payload_ok P = true -> mc_text m = WNone ->
+    assoc_str name (mc_snippets m) = None -> match_lorem name = LNo -> mc_bem m = false ->
+    html_family (mc_syntax m) -> oc_comment_enabled c = false ->
+    oc_format_leaf c = false -> mem_str name (oc_format_force c) = false ->
+    value_inline c (nested_value [] P) ->
+    expand_markup_str x (name ++ c_lbrace :: payload_text P ++ [c_rbrace]) =
+      Ok (c_lt :: tag_name c name ++ [c_gt] ++ payload_out [] P ++ [c_lt; c_slash] ++ tag_name c name ++ [c_gt]).
+Proof. exact expand_nested. Qed.
+Print Assumptions C04_expand_nested.
+
+(* non-vacuity: `p{a{$}b{{$$@-}c}${1:x{y}}}` -- counters one and two braces deep, a field whose placeholder holds
+   braces; the hypotheses hold and the conclusion computes, alone and as `...*2` *)
+Definition nested_example : payload :=
+  (S "a{", [(INum 1 false false [], S "}b{{"); (INum 2 true true [], S "}c}"); (IField (S "1") (Some (S "x{y}")), [])]).
+Example C04_nested_nonvacuous :
+  name_ok (S "p") /\ payload_ok nested_example = true /\
+  payload_text nested_example = S "a{$}b{{$$@-}c}${1:x{y}}" /\
+  parse_abbr false (mkCenv WNone [] false) None (S "p{a{$}b{{$$@-}c}${1:x{y}}}") =
+    Ok [ANode (Some (S "p")) (Some [VStr (S "a{1}b{{01}c}"); VField 1 (S "x{y}")]) None None [] false] /\
+  parse_abbr false (mkCenv WNone [] false) None (S "p{a{$}b{{$$@-}c}${1:x{y}}}*2") =
+    Ok [ANode (Some (S "p")) (Some [VStr (S "a{1}b{{02}c}"); VField 1 (S "x{y}")]) (Some (mkRep 2 0 false)) None [] false;
+        ANode (Some (S "p")) (Some [VStr (S "a{2}b{{01}c}"); VField 1 (S "x{y}")]) (Some (mkRep 2 1 false)) None [] false].
+Proof.
+  split; [split; [discriminate|repeat constructor]|].
+  split; [vm_compute; reflexivity|].
+  split; [vm_compute; reflexivity|]. split; vm_compute; reflexivity.
+Qed.
+
+(* non-vacuity of attr_expr_nested: `p[t={x{$}y{{${2:q{r}}}}}]` *)
+Example C04_attr_nested_nonvacuous :
+  let P : payload := (S "x{", [(INum 1 false false [], S "}y{{"); (IField (S "2") (Some (S "q{r}")), S "}}")]) in
+  word_ok (S "p") /\ plain_attr_name (S "t") /\ payload_ok P = true /\
+  S "p[t={" ++ payload_text P ++ S "}]" = S "p[t={x{$}y{{${2:q{r}}}}}]" /\
+  parse_abbr false (mkCenv WNone [] false) None (S "p[t={x{$}y{{${2:q{r}}}}}]") =
+    Ok [ANode (Some (S "p")) None None
+              (Some [mkAAttr (Some (S "t")) (Some [VStr (S "x{1}y{{"); VField 2 (S "q{r}"); VStr (S "}}")]) VExpr false false false])
+              [] false].
+Proof.
+  cbv zeta. split; [split; [discriminate|repeat constructor]|].
+  split; [split; [discriminate|repeat split; reflexivity]|].
+  split; [vm_compute; reflexivity|]. split; vm_compute; reflexivity.
+Qed.
+
+(* non-vacuity of expand_nested and attr_expr_nested_repeated *)
+Example C04_expand_nested_nonvacuous :
+  let x := mkX (mkMConfig (S "html") [] [] WNone None None false None [] false false false [] [] None)
+               (mkOconfig (mkOfmt [] [] []) [] [] (S "double") true false [] [] 0 false [] (S "html") [] false [] [] []
+                          false None None) in
+  value_inline (xc_o x) (nested_value [] nested_example) /\
+  expand_markup_str x (S "p{a{$}b{{$$@-}c}${1:x{y}}}") = Ok (S "<p>a{1}b{{01}c}x{y}</p>") /\
+  option_map (map an_attrs)
+    (match parse_abbr false (mkCenv WNone [] false) None (S "p[t={x{$@-}y}]*2") with Ok l => Some l | _ => None end) =
+    Some [Some [mkAAttr (Some (S "t")) (Some [VStr (S "x{2}y")]) VExpr false false false];
+          Some [mkAAttr (Some (S "t")) (Some [VStr (S "x{1}y")]) VExpr false false false]].
+Proof. cbv zeta. split; [vm_compute; repeat constructor|]. split; vm_compute; reflexivity. Qed.
+
+(* the theorem was FALSE before repair 86fc68a: with the tokenizer as it was ([tokenize_old]: literal() takes the
+   depth it is resumed at for the depth of the text) `p{{$}}` -- payload ("{", [($, "}")]), in the domain of
+   C04_text_nested -- is rejected: the inner `}` closes the text and the outer one is left over *)
+Example C04_nested_false_before_repair :
+  payload_ok (S "{", [(INum 1 false false [], S "}")]) = true /\
+  payload_text (S "{", [(INum 1 false false [], S "}")]) = S "{$}" /\
+  parses_old false (S "p{{$}}") = false /\
+  tokenize_old (S "p{{$}}") =
+    TOk [mkTok (TLiteral (S "p")) 0 1; mkTok (TBracket true BExpr) 1 2; mkTok (TLiteral (S "{")) 2 3;
+         mkTok (TRepeaterNumber 1 false 1 0) 3 4; mkTok (TBracket false BExpr) 4 5; mkTok (TBracket false BExpr) 5 6] /\
+  parse_abbr false (mkCenv WNone [] false) None (S "p{{$}}") =
+    Ok [ANode (Some (S "p")) (Some [VStr (S "{1}")]) None None [] false].
+Proof. repeat split; vm_compute; reflexivity. Qed.
